@@ -93,3 +93,26 @@ Print Assumptions C02_message_layout.
 Example C02_rfc5769_xor_mapped :
   rfc_value [183;231;167;1;188;52;214;134;250;135;223;174] 32 (AvAddr false 32853 [192;0;2;1]) = Some [0;1;161;71;225;18;166;67].
 Proof. vm_compute. reflexivity. Qed.
+
+(* ---- the Rust text of the message-type conversions (message.rs) and of padding() (common.rs), translated by tools/rs2v.py on
+   every run (Generated/Code.v), IS the bit layout proved equal to the RFC figure above: MessageType::as_u16 for every
+   method below 0x1000 and every class, From<u16> for every 16-bit value (it never panics: its unwraps are unreachable),
+   MessageMethod::try_from accepts exactly 0..0xFFF, MessageClass::try_from exactly 0..3 and as_u16 inverts it; padding(n)
+   for every n *)
+From Rustun Require Import Base.GRes Generated.Code Proofs.CodeAgreeCodec.
+Theorem C02_code_as_u16 : forall m c, m < 4096 -> c < 4 -> gen_MessageType_as_u16 (mt m c) = as_u16 m c.
+Proof. exact CodeAgreeCodec.gen_as_u16_agrees. Qed.
+Theorem C02_code_from_u16 : forall v, v < 65536 -> gen_MessageType_from_u16 v = GOk (mt (fst (of_u16 v)) (snd (of_u16 v))).
+Proof. exact CodeAgreeCodec.gen_from_u16_agrees. Qed.
+Theorem C02_code_method_range : forall v, v < 65536 -> gen_MessageMethod_try_from v = if v <? 4096 then Some v else None.
+Proof. exact CodeAgreeCodec.gen_method_try_from_agrees. Qed.
+Theorem C02_code_class_range : forall v, v < 256 ->
+  match gen_MessageClass_try_from v with Some c => v < 4 /\ gen_MessageClass_as_u16 c = v | None => 4 <= v end.
+Proof. exact CodeAgreeCodec.gen_class_try_from_agrees. Qed.
+Theorem C02_code_padding : forall n, gen_padding n = GOk (pad n).
+Proof. exact CodeAgreeCodec.gen_padding_agrees. Qed.
+Print Assumptions C02_code_as_u16.
+Print Assumptions C02_code_from_u16.
+Print Assumptions C02_code_method_range.
+Print Assumptions C02_code_class_range.
+Print Assumptions C02_code_padding.
